@@ -165,61 +165,96 @@ def audit(prop, module, theorems):
 
 
 class Child:
-    """line-protocol child process with crash attribution"""
+    """line-protocol child process with a per-line watchdog and crash attribution"""
 
-    def __init__(self, argv, env=None, timeout=120):
+    def __init__(self, argv, env=None, timeout=120, line_timeout=20):
         self.argv = argv
         self.env = env
-        self.timeout = timeout
+        self.timeout = timeout            # overall budget per process run
+        self.line_timeout = line_timeout  # budget for one case
 
     def run(self, lines, per_batch_timeout=None):
         """returns list of output lines, same length as `lines`; a crashed/hung case yields 'died ...'"""
+        import selectors
+        import threading
         out = []
         i = 0
         n = len(lines)
         while i < n:
             chunk = lines[i:]
-            data = "\n".join(chunk) + "\n"
-            try:
-                p = subprocess.run(self.argv, input=data, stdout=subprocess.PIPE, stderr=subprocess.PIPE,
-                                   text=True, env=self.env, timeout=per_batch_timeout or self.timeout)
-                got = p.stdout.split("\n")
-                if got and got[-1] == "":
-                    got.pop()
-                rc = p.returncode
-                err = p.stderr[-300:]
-            except subprocess.TimeoutExpired as e:
-                so = e.stdout or ""
-                if isinstance(so, bytes):
-                    so = so.decode("utf-8", "replace")
-                got = so.split("\n")
-                if got and got[-1] == "":
-                    got.pop()
-                rc = -999
-                err = "timeout"
+            p = subprocess.Popen(self.argv, stdin=subprocess.PIPE, stdout=subprocess.PIPE, stderr=subprocess.PIPE,
+                                 env=self.env)
+
+            def feed(proc=p, data=("\n".join(chunk) + "\n").encode()):
+                try:
+                    proc.stdin.write(data)
+                    proc.stdin.close()
+                except Exception:
+                    pass
+            th = threading.Thread(target=feed, daemon=True)
+            th.start()
+            got = []
+            buf = b""
+            reason = None
+            sel = selectors.DefaultSelector()
+            sel.register(p.stdout, selectors.EVENT_READ)
+            deadline = time.time() + self.line_timeout
+            fd = p.stdout.fileno()
+            while len(got) < len(chunk):
+                left = deadline - time.time()
+                if left <= 0:
+                    reason = "timeout"
+                    break
+                if not sel.select(timeout=left):
+                    reason = "timeout"
+                    break
+                data = os.read(fd, 1 << 16)
+                if not data:
+                    break
+                buf += data
+                while b"\n" in buf:
+                    ln, buf = buf.split(b"\n", 1)
+                    got.append(ln.decode("utf-8", "replace"))
+                    deadline = time.time() + self.line_timeout
+            sel.close()
             if len(got) >= len(chunk):
+                try:
+                    p.wait(timeout=5)
+                except Exception:
+                    p.kill()
                 out.extend(got[:len(chunk)])
                 break
-            # child died on case i+len(got)
-            out.extend(got)
-            reason = "timeout" if rc == -999 else f"rc={rc}"
+            # child died or hung on case i+len(got)
+            try:
+                p.kill()
+            except Exception:
+                pass
+            try:
+                err = p.stderr.read().decode("utf-8", "replace")[-2000:]
+            except Exception:
+                err = ""
+            rc = p.wait()
+            if reason is None:
+                reason = f"rc={rc}"
             first = ""
             for ln in err.split("\n"):
                 if ln.strip():
                     first = ln.strip()
                     break
+            out.extend(got)
             out.append("died " + reason + " " + re.sub(r"\s+", "_", first)[:120])
             i += len(got) + 1
         return out
 
 
-def go_child(timeout=120, mem="2GiB"):
+def go_child(timeout=120, mem="2GiB", line_timeout=15):
     env = dict(os.environ, GOMEMLIMIT=mem, GOMAXPROCS="4")
-    return Child(["/bin/sh", "-c", f"ulimit -v 8000000; exec {HARNESS_BIN}"], env=env, timeout=timeout)
+    return Child(["/bin/sh", "-c", f"ulimit -v 8000000; exec {HARNESS_BIN}"], env=env, timeout=timeout,
+                 line_timeout=line_timeout)
 
 
 def lean_child(timeout=300):
-    return Child([MODEL_BIN], timeout=timeout)
+    return Child([MODEL_BIN], timeout=timeout, line_timeout=120)
 
 
 def hx(s):
@@ -355,11 +390,11 @@ class Run:
         st["agree"] += agree
         return res
 
-    def go_only(self, name, lines, go_timeout=120):
+    def go_only(self, name, lines, go_timeout=120, line_timeout=15):
         """run case lines on the implementation only (for oracles that judge the real code directly)"""
         if not lines:
             return []
-        g = go_child(timeout=go_timeout).run(lines)
+        g = go_child(timeout=go_timeout, line_timeout=line_timeout).run(lines)
         self.evaluations += len(lines)
         st = self.streams.setdefault(name, {"cases": 0, "agree": 0, "impl_only": True})
         st["cases"] += len(lines)
